@@ -17,7 +17,6 @@ def main (args : List String) : IO UInt32 := do
   | ["C07"] => Proto.runLoop C07.driverStep (); return 0
   | ["C04"] => Proto.runLoop C04.driverStep (); return 0
   | ["C05"] => Proto.runLoop C05.driverStep (); return 0
-  | ["C06"] => Proto.runLoop C06.driverStep (); return 0
   | ["C16"] => Proto.runLoop C16.driverStep {}; return 0
   | ["C14"] => Proto.runLoop C14.driverStep {}; return 0
   | ["C10"] => Proto.runLoop (C10.driverStep C10.Generated.kernels) {}; return 0
@@ -26,4 +25,5 @@ def main (args : List String) : IO UInt32 := do
   | ["C18"] => Proto.runLoop (C18.driverStep C18.Generated.saveFns C18.Generated.resultPlugins) {}; return 0
   | ["C01"] => Proto.runLoop C01.driverStepX {}; return 0
   | ["C17"] => Proto.runLoop C17.driverStep2 (); return 0
+  | ["C06"] => Proto.runLoop C06.Fin.driverStep (); return 0
   | _ => IO.eprintln s!"unknown driver {args}"; return 2
